@@ -293,3 +293,40 @@ Definition judge_climatd (rec : list Z) : Z :=
     end
   | None => 1
   end.
+
+(* ---------- cmr-graphic / cmr-network  IN-MAT [-t] -G OUT-GRAPH: the written graph is a certificate ---------- *)
+(* record: signed co infmt nin inbytes.. rc hasout nout outbytes..
+   the output is an edge list with the row / column labels of the matrix; for co = 0 the row edges must form a spanning
+   forest T and the matrix must be the representation matrix of (T, column edges); for co = 1 (-t: cographic / conetwork)
+   the same holds for the transpose with the roles of rows and columns exchanged.
+   0 accepted; 1 malformed record; 360 tool failed; 361 graph file unreadable or labels not r1..rm, c1..cn once each;
+   362 wrong number of row / column edges; 363 tree edges are no spanning forest; 364 the graph does not represent the
+   matrix; 365 no graph written although the matrix is (co)graphic by the brute-force oracle (small matrices only) *)
+Definition judge_cligraphout (rec : list Z) : Z :=
+  match (signed <- dbool ;; co <- dbool ;; infmt <- dZ ;; inb <- dlist dZ ;; rc <- dZ ;; hasout <- dbool ;; outb <- dlist dZ ;;
+         dend (signed, co, infmt, inb, rc, hasout, outb)) rec with
+  | Some ((signed, co, infmt, inb, rc, hasout, outb), _) =>
+    match parse infmt 1 inb with
+    | TErr => 0
+    | TOk m n M =>
+      if negb (if signed then is_ternary M else is_binary M) then 0
+      else if negb (rc =? 0) then 360
+      else if negb hasout then
+        (if negb signed && Nat.leb (if co then n else m) 4 && Nat.leb (if co then m else n) 6 &&
+            (if co then graphic_bf n m (transpose m n M) else graphic_bf m n M) then 365 else 0)
+      else
+        match edgelist_graph outb with
+        | None => 361
+        | Some (G, rowedges, coledges) =>
+          if negb (Nat.eqb (List.length rowedges) m && Nat.eqb (List.length coledges) n) then 362
+          else
+            let '(f, c, mm, nn, MM) := if co then (coledges, rowedges, n, m, transpose m n M) else (rowedges, coledges, m, n, M) in
+            if negb (is_spanning_forest G f) then 363
+            else match lookup_all (g_edges G) f, lookup_all (g_edges G) c with
+                 | Some T, Some C => if mat_eqb (rep_matrix signed T C) MM then 0 else 364
+                 | _, _ => 361
+                 end
+        end
+    end
+  | None => 1
+  end.
